@@ -14,6 +14,7 @@ op := E k (S|L|F feature nSplines order lam userKnots|-1)^k     s(..)+l(..)+f(..
     | G i d keep glen (lam iters)^glen winner                     gam_i.gridsearch(.., lam=grid, keep_best=keep)
     | SL i c | SO i c | SM i c                                    set_params(lam=c) / (spline_order=c) / (tol…=c)
     | CP i                                                        deepcopy / pickle round trip
+    | AT i e                                                      gam_i.terms = e_e / gam_i.set_params(terms=e_e)
 ```
 Output: one block per op, blocks separated by ` ; `:
 `<out> | m <fitted> <mset> <nCoefs> <logLen|-1> <distKnown> <scaleId|-1> <fitId|-1> <predId|-1> <k> (<kind> <lam> <order> <nSplines> <knots|-1>)^k | m …`
@@ -86,6 +87,7 @@ def pOp : P Op
   | "SO" :: r => do let (i, r) ← pNat r; let (c, r) ← pNat r; some (.setOrder i c, r)
   | "SM" :: r => do let (i, r) ← pNat r; let (c, r) ← pNat r; some (.setModel i c, r)
   | "CP" :: r => do let (i, r) ← pNat r; some (.copy i, r)
+  | "AT" :: r => do let (i, r) ← pNat r; let (e, r) ← pNat r; some (.assignTerms i e, r)
   | _ => none
 
 /-- `;`-separated sections -/
